@@ -85,6 +85,9 @@ pub struct Profile {
     /// chance (n/8) that the module declares type aliases and spells some member / variable /
     /// parameter types through them
     pub aliases: u32,
+    /// chance (n/64) that the module has 65..140 small helper functions instead of `funcs`
+    /// (handle indices beyond 64 / 128: bit-set and small-table boundaries)
+    pub many_funcs: u32,
 }
 
 impl Profile {
@@ -124,6 +127,7 @@ impl Profile {
             shuffle_items: 3,
             keyword_names: 0,
             aliases: 2,
+            many_funcs: 0,
         }
     }
 }
@@ -1009,18 +1013,30 @@ pub fn gen_shader(ch: &mut Ch, p: &Profile) -> Shader {
     }
 
     // helper functions
-    let nf = ch.usize_range(p.funcs.0, p.funcs.1);
+    let many = p.many_funcs > 0 && ch.chance(p.many_funcs, 64);
+    let nf = if many { ch.usize_range(65, 140) } else { ch.usize_range(p.funcs.0, p.funcs.1) };
     let helper_globals: Vec<usize> = (0..sh.globals.len())
         .filter(|i| !matches!(sh.globals[*i].kind, GKind::Buf { space: Space::Workgroup, .. }))
         .collect();
+    // the many small helpers draw from their own stream, expanded from one choice: the choice
+    // sequence of a case is far too short for a hundred function bodies
+    let many_store: Vec<u32> = if many {
+        let seed = ch.raw() as u64;
+        (0..8000u64).map(|i| (crate::chooser::mix(seed, i) >> 32) as u32).collect()
+    } else {
+        Vec::new()
+    };
+    let mut many_ch = Ch::new(&many_store);
+    fn gen_helper(chx: &mut Ch, names: &mut Names, sh: &Shader, p: &Profile, helper_globals: &[usize], fi: usize, many: bool) -> Func {
+        let name = names.fresh(chx, "fn_", p.nonascii);
+        let ret = chx.chance(5, 8);
+        let cx = BodyCtx { sh, globals: helper_globals.to_vec(), callees: (0..fi).collect(), max_depth: if many { 1 } else { p.depth } };
+        let body = gen_block(chx, &cx, if many { (0, p.stmts.1.min(2)) } else { p.stmts }, 0);
+        Func { name, ret, body }
+    }
     for fi in 0..nf {
-        let name = names.fresh(ch, "fn_", p.nonascii);
-        let ret = ch.chance(5, 8);
-        let body = {
-            let cx = BodyCtx { sh: &sh, globals: helper_globals.clone(), callees: (0..fi).collect(), max_depth: p.depth };
-            gen_block(ch, &cx, p.stmts, 0)
-        };
-        sh.funcs.push(Func { name, ret, body });
+        let f = if many { gen_helper(&mut many_ch, &mut names, &sh, p, &helper_globals, fi, true) } else { gen_helper(ch, &mut names, &sh, p, &helper_globals, fi, false) };
+        sh.funcs.push(f);
     }
 
     // some otherwise unused structs become function-local data
@@ -1180,10 +1196,17 @@ pub fn gen_shader(ch: &mut Ch, p: &Profile) -> Shader {
             let globals: Vec<usize> = (0..sh.globals.len())
                 .filter(|i| *stage == Stage::Compute || !matches!(sh.globals[*i].kind, GKind::Buf { space: Space::Workgroup, .. }))
                 .collect();
-            let body = {
+            let mut body = {
                 let cx = BodyCtx { sh: &sh, globals, callees: (0..sh.funcs.len()).collect(), max_depth: p.depth };
                 gen_block(ch, &cx, p.stmts, 0)
             };
+            if many && many_ch.flip() {
+                // an entry point that reaches a large part of the many helpers
+                let k = many_ch.usize_range(16, sh.funcs.len());
+                for _ in 0..k {
+                    body.push(Stmt::Call { f: many_ch.idx(sh.funcs.len()), form: CallForm::Stmt });
+                }
+            }
             sh.entries.push(Entry { stage: *stage, name, params, result, wg, body });
         }
     }
